@@ -17,7 +17,15 @@ type Mismatch struct {
 
 // Report is the outcome of one comparison.
 type Report struct {
+	// Mismatches: disagreements no confirmed defect class explains.
 	Mismatches []Mismatch
+	// Defects: defaultValue leaves that fail the default-value clause in
+	// exactly the form of a confirmed conversion defect (signature
+	// defect:default-value:<class>). The comparison runs UNDER THIS
+	// RELAXATION (DESIGN.md 3.9): such a leaf does not prevent its list
+	// element from being matched, so everything else about the element is
+	// still compared, and anything else that differs is an unexplained mismatch.
+	Defects []Mismatch
 	DontCare   map[string]int // class -> leaves not compared
 	Defaults   int            // defaultValue leaves judged by the default-value clause
 	Leaves     int            // leaves compared
@@ -43,15 +51,17 @@ type ctx struct {
 	what  string // first field below the type / directive element ("args" when below fields.args)
 	intro bool   // inside the description of an introspection type
 	leaf  string // field that produced the value at hand
+	root  bool   // the type element is the value of queryType / mutationType / subscriptionType
 }
 
 func (c ctx) sig() string {
 	if c.leaf == "__typename" {
 		return "typename"
 	}
+	if c.root && (c.what == "" || c.what == "name" || c.what == "kind") {
+		return "roots" // which type is the root; anything deeper describes that type
+	}
 	switch c.area {
-	case "roots":
-		return "roots"
 	case "directive":
 		if c.what == "" {
 			return "directive:list"
@@ -121,7 +131,7 @@ func (cm *comparer) value(c ctx, exp Value, got interface{}, root bool) {
 	if cm.stop() {
 		return
 	}
-	elem := c.area == "type" && c.what == "" // the value is a type element itself
+	elem := c.area == "type" && c.what == "" && !c.root // the value is a type element itself
 	switch e := exp.(type) {
 	case nil:
 		if got != nil {
@@ -166,11 +176,14 @@ func (cm *comparer) value(c ctx, exp Value, got interface{}, root bool) {
 			cm.dontcare(v.DontCare)
 		}
 		if !v.OK {
-			sig := "default-value:" + v.Class
+			who := map[bool]string{true: "built-in input value", false: "input value"}[e.Builtin]
 			if v.DefectForm {
-				sig = "defect:" + sig
+				if !cm.probe && len(cm.rep.Defects) < cm.limit {
+					cm.rep.Defects = append(cm.rep.Defects, Mismatch{Sig: "defect:default-value:" + v.Class, Path: c.path, Msg: fmt.Sprintf("%s %s: %s", who, e.Def.Name, v.Msg)})
+				}
+			} else {
+				cm.add("default-value:"+v.Class, c, "%s %s: %s", who, e.Def.Name, v.Msg)
 			}
-			cm.add(sig, c, "%s %s: %s", map[bool]string{true: "built-in input value", false: "input value"}[e.Builtin], e.Def.Name, v.Msg)
 		}
 		cm.leaf()
 	case *Obj:
@@ -236,7 +249,8 @@ func (cm *comparer) object(c ctx, e *Obj, gm map[string]interface{}, root bool) 
 			case "directives":
 				n.area = "directive"
 			case "queryType", "mutationType", "subscriptionType":
-				n.area = "roots"
+				n.area = "type"
+				n.root = true
 			}
 		case c.area == "type" || c.area == "directive":
 			if c.what == "" {
@@ -285,7 +299,7 @@ func (cm *comparer) list(c ctx, e *List, got []interface{}) {
 		n.path = c.path + "[" + tag + "]"
 		return n
 	}
-	typesList := c.area == "type" && c.what == ""
+	typesList := c.area == "type" && c.what == "" && !c.root
 	missing := func(v Value) {
 		o, _ := v.(*Obj)
 		switch {
@@ -410,6 +424,73 @@ func (cm *comparer) list(c ctx, e *List, got []interface{}) {
 			compat[i][j] = len(p.rep.Mismatches) == 0
 		}
 	}
+	matchOfGot := kuhn(compat, ne, ng)
+	free := func() (fe, fg []int) {
+		matched := make([]bool, ne)
+		for j := range matchOfGot {
+			if matchOfGot[j] >= 0 {
+				matched[matchOfGot[j]] = true
+			} else {
+				fg = append(fg, j)
+			}
+		}
+		for i := range matched {
+			if !matched[i] {
+				fe = append(fe, i)
+			}
+		}
+		return
+	}
+	freeExp, freeGot := free()
+	if len(freeExp) > 0 && len(freeGot) > 0 {
+		// what is left is paired by least difference, to describe the disagreement precisely
+		costs := make([][]int, len(freeExp))
+		for a, i := range freeExp {
+			costs[a] = make([]int, len(freeGot))
+			for b, j := range freeGot {
+				p := &comparer{u: cm.u, rep: &Report{DontCare: map[string]int{}}, limit: 16}
+				p.value(elemCtx("?"), e.Items[i], got[j], false)
+				costs[a][b] = len(p.rep.Mismatches)
+			}
+		}
+		usedA := make([]bool, len(freeExp))
+		usedB := make([]bool, len(freeGot))
+		for {
+			ba, bb, best := -1, -1, 0
+			for a := range freeExp {
+				for b := range freeGot {
+					if usedA[a] || usedB[b] {
+						continue
+					}
+					if n := costs[a][b]; ba < 0 || n < best {
+						ba, bb, best = a, b, n
+					}
+				}
+			}
+			if ba < 0 {
+				break
+			}
+			matchOfGot[freeGot[bb]] = freeExp[ba]
+			usedA[ba], usedB[bb] = true, true
+		}
+		freeExp, freeGot = free()
+	}
+	// compare the pairs for real (counts leaves and don't-cares once, reports what differs)
+	for j, i := range matchOfGot {
+		if i >= 0 {
+			cm.value(elemCtx(fmt.Sprint(j)), e.Items[i], got[j], false)
+		}
+	}
+	for _, i := range freeExp {
+		missing(e.Items[i])
+	}
+	for _, j := range freeGot {
+		extra(got[j], "", false)
+	}
+}
+
+// kuhn computes a maximum bipartite matching; result[j] is the row matched to column j, or -1.
+func kuhn(compat [][]bool, ne, ng int) []int {
 	matchOfGot := make([]int, ng)
 	for j := range matchOfGot {
 		matchOfGot[j] = -1
@@ -427,49 +508,8 @@ func (cm *comparer) list(c ctx, e *List, got []interface{}) {
 		}
 		return false
 	}
-	matchedExp := make([]bool, ne)
 	for i := 0; i < ne; i++ {
-		if try(i, make([]bool, ng)) {
-			matchedExp[i] = true
-		}
+		try(i, make([]bool, ng))
 	}
-	// recompute which expected elements ended up matched
-	for i := range matchedExp {
-		matchedExp[i] = false
-	}
-	for j := range matchOfGot {
-		if matchOfGot[j] >= 0 {
-			matchedExp[matchOfGot[j]] = true
-		}
-	}
-	var freeExp, freeGot []int
-	for i := range matchedExp {
-		if !matchedExp[i] {
-			freeExp = append(freeExp, i)
-		}
-	}
-	for j := range matchOfGot {
-		if matchOfGot[j] < 0 {
-			freeGot = append(freeGot, j)
-		}
-	}
-	// count the matched pairs' leaves / don't-cares once
-	if !cm.probe {
-		for j, i := range matchOfGot {
-			if i >= 0 {
-				cm.value(elemCtx(fmt.Sprint(j)), e.Items[i], got[j], false)
-			}
-		}
-	}
-	// pair leftovers to describe the difference precisely
-	for len(freeExp) > 0 && len(freeGot) > 0 {
-		cm.value(elemCtx(fmt.Sprint(freeGot[0])), e.Items[freeExp[0]], got[freeGot[0]], false)
-		freeExp, freeGot = freeExp[1:], freeGot[1:]
-	}
-	for _, i := range freeExp {
-		missing(e.Items[i])
-	}
-	for _, j := range freeGot {
-		extra(got[j], "", false)
-	}
+	return matchOfGot
 }
